@@ -257,7 +257,7 @@ PROPS['C15'] = floor_prop(
     ('rec ',), 'non-trivial = records were written',
     families=[('floor', 100, 2000), ('floors', 100, 2000), ('maint', 60, 1000), ('sched', 60, 1000), ('rm', 60, 1000)])
 import c15 as _c15
-PROPS['C15']['extra'] = _c15.event_trace
+PROPS['C15']['extra'] = _c15.real_code
 PROPS['C16'] = floor_prop(
     'C16', ['SimProc.Props.C16', 'SimProc.Props.C16W', 'SimProc.Props.C15W', 'SimProc.Props.C16D', 'SimProc.Props.C15D'], ['SimProc/Props/C16.lean', 'SimProc/Props/C16W.lean', 'SimProc/Props/C15W.lean', 'SimProc/Props/C16D.lean', 'SimProc/Props/C15D.lean'],
     {'d': _c.fields('val', 'vh', 'cost', 'rval'), 'm': _c.fields('val', 'vh'), 'p': _c.fields('v'),
